@@ -15,7 +15,8 @@ PROP = "C02"
 THEOREMS = ["C02_block_string", "C02_escapes", "C02_block_body", "C02_numbers_verbatim", "C02_shape_value",
             "C02_shape_type", "C02_shape_document", "C02_shape_document_full",
             "C02_reparse_value", "C02_reparse_type", "C02_reparse_exec_definition", "C02_reparse_definition",
-            "C02_reparse_span_definitions", "C02_segment_span_ok",
+            "C02_reparse_span_definitions", "C02_reparse_subnodes_document",
+            "C02_reparse_subnodes_value_type", "C02_utf8_roundtrip", "C02_bytes_like_text", "C02_segment_span_ok",
             "C02_spans_full_proved", "C02_spans_full_value_type", "C02_no_location", "C02_spans_partial"]
 AXIOMS_OK = []
 RUN_MODULE = "Run.C02run Lang.Parser"
@@ -34,7 +35,9 @@ RULE = ("accepted texts from the grammar-directed generator (executable, SDL and
         "distinct = distinct (entry, flags, text, history); history cases first parse other texts and "
         "edit every list of the returned trees in place (append a foreign node / clear), then parse the "
         "case's text: its tree must still be the model's; on every case no list or node object may occur "
-        "twice in a tree or be shared with a tree returned by any other parse of the process")
+        "twice in a tree or be shared with a tree returned by any other parse of the process; entry lex: byte "
+        "strings (valid UTF-8 at every length boundary, a table of ill-formed sequences in three contexts, "
+        "mutated encodings, random bytes) whose bytes.decode(utf8) result must be the model's")
 
 
 def case(entry, flags, text, origin):
@@ -127,9 +130,10 @@ def generate(rng, tier):
         except Exception:   # reported by C01; not a tree
             continue
         kept.append(c)
+    kept += bytes_cases(rng, quick, kept)
     # history stream: parse A (any entry / flags), edit every list of its tree in place, then parse B
     # (B = A again every third time)
-    docs = [c for c in kept if len(c["text"]) < 400]
+    docs = [c for c in kept if len(c["text"]) < 400 and c["entry"] != "lex"]
     for i in range(120 if quick else 3000):
         if not docs:
             break
@@ -145,6 +149,79 @@ def generate(rng, tier):
             steps.append({"entry": a2["entry"], "flags": a2["flags"], "text": a2["text"], "edit": "append"})
         kept.append(history_case(b["entry"], b["flags"], b["text"], steps, "history:" + b["origin"]))
     return kept
+
+
+# ---- the decoding step of a bytes source (entry "lex": the text field holds the BYTES, one
+# character per byte) ----
+BAD_UTF8 = [b"\x80", b"\xbf", b"\xc0\x80", b"\xc1\xbf", b"\xc2", b"\xc2\x20", b"\xe0\x80\x80", b"\xe0\x9f\xbf",
+            b"\xe0\xa0", b"\xed\xa0\x80", b"\xed\xbf\xbf", b"\xef\xbf", b"\xf0\x80\x80\x80", b"\xf0\x8f\xbf\xbf",
+            b"\xf0\x90\x80", b"\xf4\x90\x80\x80", b"\xf5\x80\x80\x80", b"\xf8\x88\x80\x80\x80", b"\xff", b"\xfe",
+            b"\xe2\x28\xa1", b"\xe2\x82\x28", b"\xf0\x28\x8c\xbc", b"\xf0\x90\x28\xbc", b"\xf0\x28\x8c\x28"]
+GOOD_UTF8 = ["", "a", "\x7f", "\x80", "\u07ff", "\u0800", "\ud7ff", "\ue000", "\ufeff", "\uffff", "\U00010000",
+             "\U0010ffff", "\ufeff{ a }", "é٣中\U0001f600", "\x00\x01"]
+
+
+def _as_text(b):
+    return "".join(chr(x) for x in b)
+
+
+def bytes_cases(rng, quick, kept):
+    f0 = [False, False, False]
+    out = []
+    for g in GOOD_UTF8:
+        out.append(case("lex", f0, _as_text(g.encode("utf8")), "bytes:boundary"))
+    for bad in BAD_UTF8:
+        for pre, post in ((b"", b""), (b"{ a", b" }"), ("é".encode("utf8"), b"x")):
+            out.append(case("lex", f0, _as_text(pre + bad + post), "bytes:invalid"))
+    texts = [c["text"] for c in kept if any(ord(ch) > 127 for ch in c["text"])] or ["é"]
+    for i in range(60 if quick else 1500):
+        try:
+            b = bytearray(rng.choice(texts)[:60].encode("utf8"))
+        except UnicodeEncodeError:
+            continue
+        out.append(case("lex", f0, _as_text(b), "bytes:valid"))
+        if b:
+            k = rng.randrange(4)
+            j = rng.randrange(len(b))
+            if k == 0:
+                b = b[:j]                                     # truncate (maybe inside a sequence)
+            elif k == 1:
+                b[j] = rng.randrange(256)                     # replace a byte
+            elif k == 2:
+                del b[j]                                      # delete a byte
+            else:
+                b[j:j] = bytes([rng.choice([0x80, 0xbf, 0xc0, 0xe0, 0xed, 0xf0, 0xf4, 0xf5, 0xff])])
+            out.append(case("lex", f0, _as_text(b), "bytes:mutant"))
+    for i in range(40 if quick else 1500):
+        out.append(case("lex", f0, _as_text(bytes(rng.randrange(256) for _ in range(rng.randint(1, 6)))),
+                        "bytes:random"))
+    return out
+
+
+def _run_bytes(c):
+    b = bytes(ord(ch) for ch in c["text"])
+    try:
+        s = b.decode("utf8")
+    except UnicodeDecodeError:
+        s = None
+    o = {"decoded": s, "node_counts": {}}
+    problems = []
+    # the library: Lexer(bytes) works on exactly that text, or raises UnicodeDecodeError
+    from py_gql.lang.lexer import Lexer
+    try:
+        lx = Lexer(b)
+        if s is None or lx._source != s:
+            problems.append(["utf8-bytes", "Lexer(bytes)._source is not bytes.decode('utf8')"])
+    except UnicodeDecodeError:
+        if s is not None:
+            problems.append(["utf8-bytes", "Lexer(bytes) raised UnicodeDecodeError on decodable bytes"])
+    except Exception as e:  # noqa
+        problems.append(["utf8-bytes", "Lexer(bytes) raised %s" % type(e).__name__])
+    if s is not None and s.encode("utf8") != b:
+        problems.append(["utf8-bytes", "decoding is not canonical"])
+    if problems:
+        o["problems"] = problems
+    return o
 
 
 def _kw(flags):
@@ -303,6 +380,8 @@ def run_impl(c):
     would stay in this process and change every later case (and make a replay in a fresh process
     differ).  They therefore run in a forked child each: the edit history of a case is exactly the
     one written in the case."""
+    if c["entry"] == "lex":
+        return _run_bytes(c)
     if "history" not in c or not hasattr(os, "fork"):
         return _run_case(c)
     r, w = os.pipe()
@@ -421,7 +500,10 @@ def _run_case(c):
 
 def to_coq(c, obs):
     src = ser.cstr(c["text"]) if c["text"] else "[]"
-    if "rejected" in obs or obs.get("tree") is None:
+    if c["entry"] == "lex":
+        o = ("ObsRejected" if obs["decoded"] is None else
+             "(ObsValue (VString %s false NL))" % (ser.cstr(obs["decoded"]) if obs["decoded"] else "[]"))
+    elif "rejected" in obs or obs.get("tree") is None:
         o = "ObsRejected"
     else:
         o = "(%s %s)" % ({"doc": "ObsDoc", "value": "ObsValue", "type": "ObsType"}[c["entry"]], obs["tree"])
@@ -434,6 +516,8 @@ def show_expr(c, obs):
 
 
 def nontrivial(c, obs):
+    if c["entry"] == "lex":
+        return len(c["text"]) >= 2 and any(ord(ch) > 127 for ch in c["text"])
     if not obs.get("tree"):
         return False
     n = sum(obs["node_counts"].values())
@@ -446,6 +530,8 @@ def canonical(c):
 
 
 def classify(c, obs):
+    if c["entry"] == "lex":
+        return "utf8-bytes (the decoding of a bytes source differs from the model Lang/Utf8.v)", None
     return "tree-mirrors-source (node kinds, order, decoded literals or spans differ from the model)", None
 
 
@@ -498,7 +584,10 @@ def extra_evidence(cases, obss):
             kinds[k] = kinds.get(k, 0) + v
     blocks = sum(1 for c in cases if '"""' in c["text"])
     hist = [(c, o) for c, o in zip(cases, obss) if "history" in c]
-    return {"history": {"cases": len(hist), "lists_edited_in_place": sum(o.get("lists_edited", 0) for _, o in hist),
+    byts = [(c, o) for c, o in zip(cases, obss) if c["entry"] == "lex"]
+    bytes_ev = {"cases": len(byts), "decodable": sum(1 for _, o in byts if o.get("decoded") is not None),
+                "undecodable": sum(1 for _, o in byts if o.get("decoded") is None)}
+    return {"bytes_decoding": bytes_ev, "history": {"cases": len(hist), "lists_edited_in_place": sum(o.get("lists_edited", 0) for _, o in hist),
                         "same_text_parsed_again": sum(1 for c, _ in hist
                                                       if any(h["text"] == c["text"] for h in c["history"])),
                         "objects_kept_alive_for_the_sharing_check": len(_EARLIER)},
